@@ -16,6 +16,7 @@ ALLOWED_AXIOMS = {'propext', 'Classical.choice', 'Quot.sound'}
 FORBIDDEN = re.compile(r'\b(sorry|admit|native_decide|bv_decide|implemented_by)\b|^\s*axiom\s|^\s*unsafe\s|maxHeartbeats\s+0', re.M)
 
 ENV = dict(os.environ, CARGO_NET_OFFLINE='true', PIP_NO_INDEX='1', GOPROXY='off')
+CARGO_CFG = ['--config', 'source.vendored.directory="%s"' % os.path.join(CACHE, 'vendor')]
 COV = bool(os.environ.get('VERIF_COV'))           # set by tools/coverage.py only; never by a registered check
 COV_TARGET = os.path.join(CACHE, 'covtarget')
 COV_RAW = os.environ.get('VERIF_COV_RAW', os.path.join(CACHE, 'cov', 'raw'))
@@ -186,9 +187,11 @@ def build_hx(features):
         global ENV
         ENV = dict(ENV, RUSTFLAGS='-C instrument-coverage', CARGO_TARGET_DIR=COV_TARGET, LLVM_PROFILE_FILE=os.path.join(COV_RAW, '%p-%m.profraw'))
         os.makedirs(COV_RAW, exist_ok=True)
-        r = sh(['cargo', '+nightly', 'build', '--release', '--offline', '--features', feats], cwd=HARNESS, timeout=3600)
+        r = sh(['cargo', '+nightly', 'build', '--release', '--offline', '--features', feats] + CARGO_CFG, cwd=HARNESS, timeout=3600)
     else:
-        r = sh(['cargo', '+stable', 'build', '--release', '--offline', '--features', feats], cwd=HARNESS, timeout=3600)
+        # target directory and vendored registry are those of THIS copy of /verif (a `vp run` snapshot must not share them with /verif)
+        ENV['CARGO_TARGET_DIR'] = TARGET
+        r = sh(['cargo', '+stable', 'build', '--release', '--offline', '--features', feats] + CARGO_CFG, cwd=HARNESS, timeout=3600)
     if r.returncode != 0:
         errs = '\n'.join(l for l in r.stdout.splitlines() if l.startswith('error'))[:3000]
         raise Broken('harness-build', f'cargo build --features "{feats}" against /repo failed', errs or r.stdout[-3000:])
